@@ -1,4 +1,5 @@
-import PbVerif.Lemmas.MsgAlgSort
+import PbVerif.Lemmas.MsgAlgDet
+import PbVerif.Lemmas.MsgAlgExamples
 /-
 C05 — deterministic marshalling is a function of message content
 (model: `Pb.detMsg`, `Pb.encodeDet` = proto.MarshalOptions{Deterministic:true}).
@@ -59,11 +60,8 @@ theorem sortFields_unique (d : MsgD) (fs gs : Fields) (hn : fs.nums.Nodup)
 
 /-! ### same content up to the order of field lists and of map entries -/
 
-/-- two map entries that can be told apart by `GenericKeyOrder` on key kind `kk`: entry messages
-with distinct field numbers and distinct canonical keys -/
-def DistinctEntries (kk : Kind) (a b : Val) : Prop :=
-  ∃ ea eb ka kb, a = .msg ea ∧ b = .msg eb ∧ entryKey ea = some ka ∧ entryKey eb = some kb ∧
-    ea.fields.nums.Nodup ∧ eb.fields.nums.Nodup ∧ KeyCanon kk ka ∧ KeyCanon kk kb ∧ ka ≠ kb
+/-! `Pb.DistinctEntries kk a b` (Lemmas/MsgAlgDet.lean): `a`, `b` are entry messages with distinct field
+numbers and distinct canonical keys of kind `kk` — they can be told apart by `GenericKeyOrder`. -/
 
 mutual
 /-- `PermMsg S mi a b`: `a` and `b` (messages of type `mi`) have the same content, up to the order
@@ -189,5 +187,133 @@ on the order in which fields and map entries are stored — for all schemas and 
 theorem encodeDet_perm (S : Schema) (mi : Nat) (a b : Msg) (h : PermMsg S mi a b) :
     encodeDet S mi a = encodeDet S mi b := by
   rw [encodeDet, encodeDet, detMsg_perm S h]
+
+/-- a non-trivial instance of the hypothesis: the two fields stored in opposite order AND the two
+entries of the map field 5 stored in opposite order -/
+example :
+    let e1 := Ex.entry [0x61#8] 4
+    let e2 := Ex.entry [0x62#8] 9
+    let one5 : FVal := .one (.num 5)
+    PermMsg Ex.S0 0
+      (.mk (.cons 1 one5 (.cons 5 (.many (.cons e1 (.cons e2 .nil))) .nil)) [])
+      (.mk (.cons 5 (.many (.cons e2 (.cons e1 .nil))) (.cons 1 one5 .nil)) []) := by
+  intro e1 e2 one5
+  refine .mk (.trans (.cons .same (.cons (.map (f := { num := 5, kind := .message, card := .map, sub := 1 })
+    (kf := { num := 1, kind := .string, card := .optional }) rfl rfl rfl ?_) .nil)) (.reorder (List.Perm.swap _ _ _) (by decide)))
+  refine .reorder (List.Perm.swap _ _ _) ?_
+  simp only [Vals.toList, List.pairwise_cons, List.mem_cons, or_false, forall_eq,
+    List.not_mem_nil, false_imp_iff, implies_true, List.Pairwise.nil, and_true]
+  exact ⟨_, _, .bytes [0x61#8], .bytes [0x62#8], rfl, rfl, rfl, rfl, by decide, by decide, rfl, rfl,
+    by intro h; cases h⟩
+
+/-! ### the normal form is idempotent -/
+
+mutual
+/-- normalising twice is normalising once — for well-formed messages (distinct field numbers,
+distinct map keys: `wfMsg`) whose map keys are canonical for their kind (`ckMsg`) -/
+theorem detMsg_idempotent (S : Schema) : ∀ (m : Msg) (mi : Nat), wfMsg S mi m = true → ckMsg S mi m = true →
+    detMsg S mi (detMsg S mi m) = detMsg S mi m
+  | .mk fs unk, mi, hw, hc => by
+    rw [wfMsg] at hw
+    rw [ckMsg] at hc
+    have hn : (detFields S (S.msg mi) fs).nums.Nodup := by rw [detFields_nums]; exact wfFields_nodup hw
+    rw [detMsg, detMsg, detFields_sortBy, detFields_idem S fs _ hw hc, sortFields_idem _ _ hn]
+theorem detFields_idem (S : Schema) : ∀ (fs : Fields) (d : MsgD), wfFields S d fs = true →
+    ckFields S d fs = true → detFields S d (detFields S d fs) = detFields S d fs
+  | .nil, _, _, _ => by rw [detFields, detFields]
+  | .cons n fv tl, d, hw, hc => by
+    rw [wfFields, Bool.and_eq_true, Bool.and_eq_true] at hw
+    rw [ckFields, Bool.and_eq_true] at hc
+    rw [detFields_cons, detFields_cons, detFields_idem S tl d hw.2 hc.2]
+    congr 1
+    have h1 := hw.1.1
+    have h2 := hc.1
+    unfold detField
+    split at h1
+    · rename_i f hf
+      rw [hf] at h2
+      simp only [hf]
+      exact detFVal_idem S fv f h1 h2
+    · cases h1
+theorem detFVal_idem (S : Schema) : ∀ (fv : FVal) (f : Field), wfFVal S f fv = true →
+    ckFVal S f fv = true → detFVal S f (detFVal S f fv) = detFVal S f fv
+  | .one v, f, hw, hc => by
+    rw [wfFVal] at hw
+    rw [ckFVal] at hc
+    simp only [detFVal, detVal_idem S v f hw hc]
+  | .many vs, f, hw, hc => by
+    rw [wfFVal] at hw
+    rw [ckFVal, Bool.and_eq_true] at hc
+    by_cases hm : f.card = .map
+    · simp only [hm, if_true] at hw hc
+      cases hk : (S.msg f.sub).find 1 with
+      | none =>
+        simp only [detFVal, hm, if_true, hk]
+        rw [detVals_fixed S f _ (fun v hv => ?_)]
+        rw [detVals_toList, List.mem_map] at hv
+        obtain ⟨w, hw', rfl⟩ := hv
+        exact detEntries_elem S vs f hw hc.1 w hw'
+      | some kf =>
+        have hc2 := hc.2
+        rw [hk] at hc2
+        simp only [detFVal, hm, if_true, hk]
+        have hfix : ∀ v ∈ (detVals S f vs).toList, detVal S f v = v := by
+          intro v hv
+          rw [detVals_toList, List.mem_map] at hv
+          obtain ⟨w, hw', rfl⟩ := hv
+          exact detEntries_elem S vs f hw hc.1 w hw'
+        rw [detVals_fixed S f (Vals.sortBy (entryLess kf.kind) (detVals S f vs)) (fun v hv => by
+          rw [Vals.toList_sortBy] at hv
+          exact hfix v ((insSort_perm _ _).mem_iff.mp hv))]
+        congr 1
+        apply Vals.toList_inj
+        rw [Vals.toList_sortBy, Vals.toList_sortBy]
+        apply insSort_of_sorted
+        refine insSort_sorted (entryLess_trans kf.kind) _ ?_
+        rw [detVals_toList, List.pairwise_map]
+        exact (distinctEntries_of_wf hw hc2).imp (fun h => distinctEntries_cmp S f kf.kind _ _ h)
+    · simp only [hm, if_false] at hw
+      simp only [detFVal, hm, if_false, detVals_idem S vs f hw hc.1]
+theorem detVal_idem (S : Schema) : ∀ (v : Val) (f : Field), wfVal S f v = true → ckVal S f v = true →
+    detVal S f (detVal S f v) = detVal S f v
+  | .msg m, f, hw, hc => by
+    rw [wfVal] at hw
+    rw [ckVal] at hc
+    rw [detVal, detVal, detMsg_idempotent S m f.sub hw hc]
+  | .num n, f, _, _ => by rw [detVal_scalar S f _ rfl]
+  | .bytes b, f, _, _ => by rw [detVal_scalar S f _ rfl]
+theorem detVals_idem (S : Schema) : ∀ (vs : Vals) (f : Field), wfVals S f vs = true → ckVals S f vs = true →
+    detVals S f (detVals S f vs) = detVals S f vs
+  | .nil, _, _, _ => by rw [detVals, detVals]
+  | .cons v tl, f, hw, hc => by
+    rw [wfVals, Bool.and_eq_true] at hw
+    rw [ckVals, Bool.and_eq_true] at hc
+    rw [detVals, detVals, detVal_idem S v f hw.1 hc.1, detVals_idem S tl f hw.2 hc.2]
+theorem detEntries_elem (S : Schema) : ∀ (vs : Vals) (f : Field), wfEntries S f.sub vs = true →
+    ckVals S f vs = true → ∀ w ∈ vs.toList, detVal S f (detVal S f w) = detVal S f w
+  | .nil, _, _, _, _, hw' => by simp [Vals.toList] at hw'
+  | .cons (.msg e) tl, f, hw, hc, w, hw' => by
+    rw [wfEntries, Bool.and_eq_true, wfEntry, Bool.and_eq_true] at hw
+    rw [ckVals, Bool.and_eq_true, ckVal] at hc
+    simp only [Vals.toList, List.mem_cons] at hw'
+    rcases hw' with rfl | hw'
+    · rw [detVal, detVal, detMsg_idempotent S e f.sub hw.1.2 hc.1]
+    · exact detEntries_elem S tl f hw.2 hc.2 w hw'
+  | .cons (.num n) tl, _, hw, _, _, _ => by
+    rw [wfEntries, Bool.and_eq_true] at hw
+    simp [wfEntry] at hw
+  | .cons (.bytes b) tl, _, hw, _, _, _ => by
+    rw [wfEntries, Bool.and_eq_true] at hw
+    simp [wfEntry] at hw
+end
+
+example : wfMsg Ex.S0 0 Ex.m0 = true ∧ ckMsg Ex.S0 0 Ex.m0 = true := by decide
+
+/-- idempotence fails when a field number occurs twice: the insertion sort reverses the two -/
+theorem detMsg_idempotent_needs_distinct :
+    let S : Schema := ⟨[⟨[{ num := 1, kind := .int32, card := .optional }]⟩]⟩
+    let m : Msg := .mk (.cons 1 (.one (.num 1)) (.cons 1 (.one (.num 2)) .nil)) []
+    encMsg S 0 (detMsg S 0 (detMsg S 0 m)) ≠ encMsg S 0 (detMsg S 0 m) := by
+  decide +kernel
 
 end C05
